@@ -135,7 +135,30 @@ def panic_site(text):
         path = "rust-std/" + path.split("/library/", 1)[-1]
     elif path.startswith("/repo/"):
         path = path[len("/repo/"):]
-    return "%s:%s" % (path, m.group(2))
+    return "%s:%s" % (path, _enclosing_fn(path, int(m.group(2))))
+
+
+_FN_RE = re.compile(r"^\s*(?:pub(?:\([^)]*\))?\s+)?(?:(?:const|async|unsafe|extern \"C\")\s+)*fn\s+(\w+)")
+_FN_CACHE = {}
+
+
+def _enclosing_fn(path, line):
+    """The panic *site* is named by its enclosing function rather than its line number, so that an
+    unrelated edit higher up in the file does not rename a known finding."""
+    full = os.path.join(os.environ.get("VERIF_REPO", "/repo"), path)
+    lines = _FN_CACHE.get(full)
+    if lines is None:
+        try:
+            with open(full) as f:
+                lines = f.read().split("\n")
+        except OSError:
+            lines = []
+        _FN_CACHE[full] = lines
+    for i in range(min(line, len(lines)) - 1, -1, -1):
+        m = _FN_RE.match(lines[i])
+        if m:
+            return "fn=" + m.group(1)
+    return "line=%d" % line
 
 
 def panic_message(text):
